@@ -34,6 +34,7 @@ type XOp struct {
 // XCase: a message type with extensions, and the program.
 type XCase struct {
 	Type string `json:"type"`
+	Base []byte `json:"base,omitempty"` // reference encoding of the regular (non-extension) fields the message starts with
 	Prog []XOp  `json:"prog"`
 }
 
@@ -201,7 +202,10 @@ func wireNumbersOf(rtName string, m any) map[int]int {
 	return nums
 }
 
-func oracleC12(c *XCase) (fail *ev.Failure, st struct{ steps, setThenClear int }) {
+func oracleC12(c *XCase) (fail *ev.Failure, st struct {
+	steps, setThenClear int
+	regular             bool
+}) {
 	loadCorpus()
 	mt := typeByKey[c.Type]
 	if mt == nil {
@@ -214,6 +218,11 @@ func oracleC12(c *XCase) (fail *ev.Failure, st struct{ steps, setThenClear int }
 	}
 	xr := extRuntimes[mt.Info.Runtime]
 	live, twin := mt.New(), mt.New()
+	if len(c.Base) > 0 {
+		FromDynamic(decodeRef(mt.Desc, c.Base), live)
+		FromDynamic(decodeRef(mt.Desc, c.Base), twin)
+		st.regular = true
+	}
 	model := map[int32]string{}
 	stage := ""
 	defer func() {
@@ -363,7 +372,7 @@ func extTypes() []*MsgType {
 
 var c12Kinds = []string{"set", "set", "set", "get", "has", "clear", "clear", "clearall", "range", "range", "marshal", "number", "set-foreign", "has-foreign", "get-foreign"}
 
-const ruleC12 = "case = a proto2 message type with extensions (one file per extension kind: 15 scalars, enum, message; plus file-scope / nested-scope / multiple extensions) of gogo / Google v1 (legacy) / Google v2, plain and fast-marshal, + a program of <= 30 ops over {Set, Get, Has, Clear, ClearAll, Range, Marshal, ExtensionFieldNumber, and Set/Has/Get with the descriptor of ANOTHER runtime}; model map[number]value AND a twin message driven through the owning runtime's own extension API with the same ops: after each step Has/Get agree with both, after Clear/ClearAll/Marshal the extension's number is on the wire iff it is set, Range visits exactly the set numbers, a foreign descriptor yields false / an error and leaves the message equal to its twin; non-trivial = a program with >= 1 Set followed later by Clear / ClearAll / Range; distinct by program"
+const ruleC12 = "case = a proto2 message type with extensions (one file per extension kind: 15 scalars, enum, message; plus file-scope / nested-scope / multiple extensions / extensions with defaults), 2 in 3 starting with its regular fields populated, of gogo / Google v1 (legacy) / Google v2, plain and fast-marshal, + a program of <= 30 ops over {Set, Get, Has, Clear, ClearAll, Range, Marshal, ExtensionFieldNumber, and Set/Has/Get with the descriptor of ANOTHER runtime}; model map[number]value AND a twin message driven through the owning runtime's own extension API with the same ops: after each step Has/Get agree with both, after Clear/ClearAll/Marshal the extension's number is on the wire iff it is set, Range visits exactly the set numbers, a foreign descriptor yields false / an error and leaves the message equal to its twin; non-trivial = a program with >= 1 Set followed later by Clear / ClearAll / Range; distinct by program"
 
 func TestC12(t *testing.T) {
 	rec := ev.New("C12", ruleC12)
@@ -378,6 +387,10 @@ func TestC12(t *testing.T) {
 	ev.Rapid(t, ev.N(8000, 150000), 12, func(rt *rapid.T) {
 		mt := rapid.SampledFrom(mine).Draw(rt, "type")
 		c := &XCase{Type: mt.Key()}
+		if rapid.IntRange(0, 2).Draw(rt, "regular") != 0 {
+			// regular fields populated next to the extensions
+			c.Base, _ = refMarshal.Marshal(genDyn(rt, mt.Desc, 1, genOpts{runtime: mt.Info.Runtime, requiredProb: 10, noExt: true, jsonSafe: true}))
+		}
 		for i := rapid.IntRange(1, 30).Draw(rt, "nops"); i > 0; i-- {
 			op := XOp{Kind: rapid.SampledFrom(c12Kinds).Draw(rt, "kind"), Ext: rapid.IntRange(0, 5).Draw(rt, "ext")}
 			if op.Kind == "set" {
@@ -399,10 +412,13 @@ func TestC12(t *testing.T) {
 		rec.Eval(int64(st.steps))
 		rec.Class("runtime/" + mt.Info.Runtime)
 		rec.Class("file/" + mt.Info.File)
+		if st.regular {
+			rec.Class("regular-fields-populated")
+		}
 		if st.setThenClear > 0 {
 			cj, _ := json.Marshal(c)
 			rec.NonTrivial(ev.FP(cj))
-			rec.Sample(mt.Info.Runtime+"/"+mt.Info.File, map[string]any{"type": c.Type, "prog": progKinds(c.Prog)})
+			rec.Sample(mt.Info.Runtime+"/"+mt.Info.File, map[string]any{"type": c.Type, "base_hex": fmt.Sprintf("%x", c.Base), "prog": progKinds(c.Prog)})
 		}
 		rec.Check(rt, "xcase", c, f)
 	})
